@@ -8,9 +8,9 @@ head = "## 12. Seeded changes (independent sub-agents) and which checks catch th
 i = s.index(head)
 table = subprocess.run([sys.executable, os.path.join(HERE, "tools", "seed_table.py")], capture_output=True, text=True).stdout
 text = head + """
-Six rounds of 19 fresh sub-agents each (114 changes). Every agent got only the text of one property and its own scratch
-git worktree of /repo under /tmp (nothing from /verif; rounds 2-6 were additionally told which ideas had already
-been used for that property, so that the six changes per property differ in mechanism (rounds 5 and 6 were also asked to stay out of the files and functions the earlier ones had touched)). Each wrote one realistic
+Seven rounds of 19 fresh sub-agents each (133 changes). Every agent got only the text of one property and its own scratch
+git worktree of /repo under /tmp (nothing from /verif; rounds 2-7 were additionally told which ideas had already
+been used for that property, so that the seven changes per property differ in mechanism (rounds 5-7 were also asked to stay out of the files and functions the earlier ones had touched)). Each wrote one realistic
 regression (a tidy-up, an off-by-one, a moved statement, a swapped argument, ...) that still passes the 88 baseline
 tests, plus a stand-alone demonstration. Each change was confirmed by `tools/seed_collect.sh` in a *fresh* scratch
 worktree (demo exits 0 on HEAD, 1 with the patch; baseline pytest command passes with the patch) and then evaluated by
@@ -18,9 +18,9 @@ worktree (demo exits 0 on HEAD, 1 with the patch; baseline pytest command passes
 live in `seeded/<id>/` (`patch.diff`, `demo.py`, `notes.md`, `confirm.json`, `eval.json`, `meta.json`); none was ever
 committed to /repo, all worktrees were removed.
 
-**Result: all 114 are reported by their own property's quick check as `VIOLATION` with a concrete failing input** (not
+**Result: all 133 are reported by their own property's quick check as `VIOLATION` with a concrete failing input** (not
 merely as a broken correspondence). That was not so at first: 9 of the first 19, 14 of the second 19, 13 of the
-third 19, 8 of the fourth 19, 11 of the fifth 19 and 14 of the sixth 19 were initially missed or seen only as a broken correspondence. Each miss was a hole in a *generator* or a
+third 19, 8 of the fourth 19, 11 of the fifth 19, 14 of the sixth 19 and 9 of the seventh 19 were initially missed or seen only as a broken correspondence. Each miss was a hole in a *generator* or a
 missing *clause*, never a reason to weaken a check; what was added (all of it also runs on the unchanged tree):
 
 * round 1: coarse search grids and call provenance (C02), budget stress + reserve correspondence (C03), runs started at
@@ -67,6 +67,20 @@ missing *clause*, never a reason to weaken a check; what was added (all of it al
   One more false alarm of my own surfaced under `VERIF_SEED=1`: "a predictive SD of exactly 0 means the raw observation was used" (C13,
   round 4) is wrong for tiny `noise_size`, where the GP's posterior variance underflows to 0; the clause now also requires the value to
   BE the raw observation of that call.
+
+* round 7: the caller's bound vectors used for a second construction (C08), the SD appended to the surrogate compared with the LOGGED SD
+  instead of with the argument the caller handed over (C15: my clause trusted that argument), the ES box clause judged against a fresh
+  transform (C18), the helper that maps given points into internal coordinates for integer-typed points (C11), the display levels - logging is
+  no longer disabled in traced runs, its output goes to a null handler (C10, C09), every float-valued option supplied as a 0-d array with three
+  ES iterations (C20; the documented run-time rescaling of seven options for noisy targets is exempt from "the instance keeps the supplied
+  value"), `tol_mesh` given as exact powers of two (C13), foreign runs with other search settings (C07), objective values that are large
+  relative to the late improvements (C04). Two side remarks of sub-agents about the unchanged tree were followed up and turned out to be
+  genuine defects: unsigned-integer objective values (C04, fixed f57d12a) and the slice-sampler retry path under consecutive fit failures
+  (C16, fixed ac3c6b0 and 14ec9cb). A third remark (plausible bounds stored under swapped keys in `optim_state`, which makes `poll_scale`
+  negative for unbounded variables) is real but cancels out in every use (`poll_mads_2n` divides by what `_poll_step_` multiplies with; the
+  ES-ell strategy only sees the sign of a symmetric draw) - no property is affected, nothing was changed.
+  One more false alarm of my own (seeds 11 and 12 of a clean-tree sweep): a GENUINE `LinAlgError` inside `GP.fit` (not injected) was recorded as
+  a successful attempt, so the model's attempt shapes disagreed - the tracer now records it as the oracle failure it is.
 
 Two of those generator extensions exposed genuine defects on the pinned tree (section 11: `noise_size` with specified
 noise; three boolean advanced options), which were repaired by `fix:` commits; one more (`fit_lik=False`) is a known finding.
